@@ -8,3 +8,4 @@ import DateutilVerif.Properties.C14
 #print axioms C14.lex_output_bounded
 #print axioms C14.parse_terminates
 #print axioms C14.parse_pure
+#print axioms C14.token_list_written_only_by_sign_flip
